@@ -19,9 +19,11 @@ LEVEL_TEXT = ("Theorems over Context.v for every history: get-after-set, set/del
               "attributes vanish at pop and outer values reappear, del succeeds only in the owning scope, pop runs every cleanup of "
               "the scope in reverse registration order and removes the scope even when cleanups raise, and executed + pending cleanups "
               "are conserved by every operation (exactly-once); execute_steps leaves the caller's text/table, every other attribute and "
-              "the outer scopes as they were, whether or not a nested step fails.  The model is compared with a real Context on exhaustive short and "
+              "the outer scopes as they were, whether or not a nested step fails; runner side: a raising cleanup of a scenario's scope makes the "
+              "scenario end error and count as failed.  The model is compared with a real Context on exhaustive short and "
               "random long histories; an independent layered-map reference is the oracle.")
-LEVEL_NOTE = "Trusted: Coq kernel, history replayer. The runner-side consequences (owner gets error, run fails) are C01/C03 theorems."
+LEVEL_NOTE = ("Trusted: Coq kernel, history replayer, run-cluster renderer/decoder. The runner-side consequence (a raising cleanup makes "
+              "its owner and the run fail) is checked on real runs against the run model (whose verdict theorem is C01's) and by the oracle.")
 EXHAUSTIVE = True
 
 KEYS = {"k0": 0, "k1": 1, "k2": 2, "failed": 10, "aborted": 11, "feature": 12, "text": 13}
@@ -333,6 +335,69 @@ def remap_ids(case):
     return case
 
 
+# ------------------------------------------------------------------ real runs: a raising cleanup makes its owner and the run fail
+def cleanup_programs(rnd, n):
+    """otherwise all-passing runs in which hooks at every level register cleanups, some of which raise"""
+    import runcluster as rc, runprog
+    out = []
+    for _ in range(n):
+        p = rc.gen_program(rnd)
+        for f in p["features"]:                        # everything passes, everything is selected, all hooks exist
+            for it in f["items"]:
+                for x in (it["items"] if it["kind"] == "rule" else [it]):
+                    for st in x["steps"]:
+                        st["kind"] = "pass"
+                if it["kind"] == "rule" and it["bg"]:
+                    for st in it["bg"]:
+                        st["kind"] = "pass"
+            if f["bg"]:
+                for st in f["bg"]:
+                    st["kind"] = "pass"
+        p["cfg"].update({"expr": None, "dry_run": False, "stop": rnd.random() < 0.2, "hooks": list(runprog.HOOKS), "faults": []})
+        sites = [s for s in rc.hook_sites(p) if s[0] in ("before_all", "before_feature", "before_rule", "before_scenario",
+                                                          "after_feature", "after_rule", "after_scenario", "before_tag")]
+        cl = []
+        for j in range(rnd.randint(1, 3)):
+            h, k = rnd.choice(sites)
+            cl.append([h, k, 500 + j, rnd.random() < 0.6])
+        p["cfg"]["hook_cleanups"] = cl
+        out.append(p)
+    return out
+
+
+def oracle_runs(prog, obs):
+    if obs.get("crashed"):
+        return [("the run let an exception escape: %s" % obs["crashed"], "run-crashed")]
+    out = []
+    ran = {}
+    for e in obs["log"]:
+        if e[0] == "cleanup":
+            ran.setdefault(e[1], []).append(e[2])
+    invoked = set((e[1], e[2]) for e in obs["log"] if e[0] == "hook")
+    status = {}
+    for t in obs["tree"]:
+        status[t["name"]] = t["status"]
+        for it in t["items"]:
+            status[it["name"]] = it["status"]
+            for x in it.get("items", []) + it.get("rows", []):
+                status[x["name"]] = x["status"]
+                for y in x.get("rows", []):
+                    status[y["name"]] = y["status"]
+    for h, k, cid, raises in prog["cfg"]["hook_cleanups"]:
+        n_inv = sum(1 for e in obs["log"] if e[0] == "hook" and e[1] == h and e[2] == str(k))
+        if len(ran.get(cid, [])) != n_inv:
+            out.append(("cleanup %d registered by %s(%s) (%d invocation(s)) ran %d time(s)" % (cid, h, k, n_inv, len(ran.get(cid, []))),
+                        "cleanup-not-exactly-once"))
+        if raises and n_inv:
+            if not obs["failed"]:
+                out.append(("cleanup %d registered by %s(%s) raised but the run reports success" % (cid, h, k), "raising-cleanup-run-green"))
+            owner = str(k)
+            if h not in ("before_all", "before_tag") and status.get(owner) not in ("error", "hook_error", "failed"):
+                out.append(("cleanup %d registered by %s(%s) raised but %s has status %s" % (cid, h, k, owner, status.get(owner)),
+                            "raising-cleanup-owner-not-failed"))
+    return out
+
+
 def suites(tier, seed):
     rnd = random.Random(seed * 2654435761 % (2 ** 31) + 13)
     thorough = tier == "thorough"
@@ -364,7 +429,13 @@ def suites(tier, seed):
                   "coq": {"header": HEADER, "in_ty": "(nat * nat * list nested)", "out_ty": "(list (nat * nat) * bool * (nat * nat))",
                           "fn": "exec_case", "eqb": "exec_out_eqb", "enc": enc_exec, "shard": 400},
                   "bound": "outer step with/without text and table x two nested steps each with/without text and table x nested failure"}
-    return [exec_suite, {"name": "histories", "cases": cases, "impl": impl_history_ids, "oracle": oracle_ids,
+    import runcluster as rc
+    runs = {"name": "runs", "cases": cleanup_programs(rnd, 1200 if thorough else 250), "impl": rc.impl_run, "oracle": oracle_runs,
+            "nontrivial": lambda c, o: any(e[0] == "cleanup" and e[2] for e in o.get("log", [])),
+            "histogram": rc.histogram, "shrink": rc.shrink_program,
+            "bound": "seeded all-passing programs whose hooks at run / feature / rule / scenario / tag level register cleanups, some raising",
+            "coq": rc.COQ}
+    return [exec_suite, runs, {"name": "histories", "cases": cases, "impl": impl_history_ids, "oracle": oracle_ids,
              "nontrivial": lambda c, o: any(x[0] == "popped" and x[1] for x in o["out"]) or sum(1 for op in c["ops"] if op[0] == "set") >= 2,
              "exhaustive": True, "bound": "all histories up to length %d over a %d-operation alphabet; random up to length 33" % (L, len(SMALL)),
              "shrink": lambda c: ({"ops": c["ops"][:i] + c["ops"][i + 1:]} for i in range(len(c["ops"]))),
@@ -372,7 +443,7 @@ def suites(tier, seed):
                                            "pops_with_cleanups": sum(1 for o in os_ if isinstance(o, dict) for x in o.get("out", []) if x[0] == "popped" and x[1]),
                                            "raising_pops": sum(1 for o in os_ if isinstance(o, dict) for x in o.get("out", []) if x[0] == "popped" and x[2] is not None)},
              "coq": {"header": HEADER, "in_ty": "list cop", "out_ty": "list cout", "fn": "crun_out",
-                     "eqb": "list_eqb cout_eqb", "enc": enc, "shard": 400}}][0:2]
+                     "eqb": "list_eqb cout_eqb", "enc": enc, "shard": 400}}]
 
 
 def impl_exec_steps(case):
